@@ -214,6 +214,10 @@ def run_one_case(ctx, case_fn, idx, state):
 def worker(args, prop, case_fn, setup_fn, tierconf):
     ctx = Ctx(prop, args.seed, args.tier, args.shard)
     t0 = time.time()
+    # run in a private scratch directory: the library drops result files into the current directory
+    scratch = os.path.join(env.WORK, f"cwd-{prop}-{os.getpid()}")
+    os.makedirs(scratch, exist_ok=True)
+    os.chdir(scratch)
     state = None
     if setup_fn is not None:
         with env.quiet():
@@ -229,6 +233,12 @@ def worker(args, prop, case_fn, setup_fn, tierconf):
     d["wall_s"] = time.time() - t0
     with open(args.out, "w") as f:
         json.dump(d, f)
+    try:
+        import shutil
+        os.chdir(env.VERIF_ROOT)
+        shutil.rmtree(scratch, ignore_errors=True)
+    except Exception:
+        pass
 
 
 def load_known_findings():
@@ -407,10 +417,13 @@ def main(prop, level, case_fn, tiers, rule, assumptions=(), setup_fn=None, requi
     with open(os.path.join(env.VERIF_ROOT, "evidence", f"{prop}.json"), "w") as f:
         json.dump(evidence, f, indent=1)
 
-    # clean work dir
+    # clean work dir (and scratch directories that cases of this property may have left behind)
     try:
         import shutil
+        import glob
         shutil.rmtree(workdir, ignore_errors=True)
+        for d in glob.glob(os.path.join(env.WORK, f"cwd-{prop}-*")) + glob.glob(os.path.join(env.WORK, f"{prop.lower()}-*")):
+            shutil.rmtree(d, ignore_errors=True)
     except Exception:
         pass
 
